@@ -205,6 +205,11 @@ def session_wiring(c):
         c.ob('midnight-start/%s/clock-over-exactly-start-end' % kind,
              r == 'ok' and s.sim_engine.starting_day == start0 and s.sim_engine.ending_day == end0 and s.start_dt == start0 and s.end_dt == end0,
              props=['C12', 'C14', 'C08'])
+    for same in (pd.Timestamp('2019-01-09 00:00:00', tz='UTC'), pd.Timestamp('2019-01-09 14:30:00', tz='UTC'), pd.Timestamp('2019-01-12 00:00:00', tz='UTC')):
+        r, s = _try(lambda: BacktestTradingSession(same, same, uni, alpha, initial_cash=cash, rebalance='daily', long_only=True, fee_model=fm,
+                                                   data_handler=dh, cash_buffer_percentage=buf))
+        c.ob('start-equals-end/%s/accepted-with-the-clock-over-that-instant' % same.strftime('%a-%H%M'),
+             r == 'ok' and s.sim_engine.starting_day == same and s.sim_engine.ending_day == same, props=['C12', 'C14', 'C08'])
     # membership of a schedule is by DATE: a start after 21:00 and an end before 21:00 change nothing (the clock still emits the closes)
     start2, end2 = pd.Timestamp('2019-01-02 21:01:00', tz='UTC'), pd.Timestamp('2019-03-29 14:30:00', tz='UTC')
     for kind, ref in (('daily', lambda: DailyRebalance(start2, end2)), ('weekly', lambda: WeeklyRebalance(start2, end2, 'FRI')),
